@@ -43,6 +43,17 @@ CLAIMS = {
         note=COMMON_NOTE + 'The hand-written regex matcher is tied to REGEX_SPEC by string equality and to `re` by the sweep; ASCII-only texts; Machine._time_pattern / Clock.wait_until are covered by differential runs, not by theorems.',
         technique='Coq proof (finite reflection lifted by structural lemmas) over translated definitions + exhaustive correspondence',
         design='DESIGN.md 7 C11'),
+    'C02': dict(
+        text=('The operator table (precedence, right-associative operators, binary-operator test) is regenerated from parser/token.py on every '
+              'run and proved equal to the documented levels: ^ (right to left) above * / % above + - above comparisons above `and` above `or`, '
+              'all others left to right; integer arithmetic, comparisons, division by zero, truthiness of numbers, the leading minus and the '
+              'result set of randint vs randrange are stated on the shared arithmetic. Grouping by the parser and equality of the value in '
+              'every value position are decided per run: expression trees of depth <= 4 with minimal/redundant parentheses in every position '
+              'are compiled by the real parser and by the tree-directed compiler model (must agree instruction for instruction) and run '
+              'against the reference semantics; built-in sweeps; [random a b] with the library choice forced to its extremes.'),
+        note=COMMON_NOTE + 'Partial: the theorem that the precedence-climbing parser returns the tree of every rendered expression (parse_render) and the stack-machine lemma (postfix_eval) are not proved yet; libm built-ins and float ** are outside the model.',
+        technique='Coq lemmas over the regenerated operator table and the shared arithmetic; correspondence (compile) and oracle (reference semantics) runs on generated trees',
+        design='DESIGN.md 7 C02'),
     'C03': dict(
         text=('Scoping laws proved on the reference semantics for all states and programs: a parameter/local hides a global for reads and '
               'writes; assignment targets parameter/local, else existing global, else a new local; every value position and call (nested, '
